@@ -308,6 +308,7 @@ pub fn gen_program(seed: u64, prof: &TProfile) -> Program {
             } else {
                 k.u128()
             },
+            hold: k.chance(1, 3),
         },
         preload,
         threads,
